@@ -692,7 +692,10 @@ func (tree *MutableTree) GetVersioned(key []byte, version int64) ([]byte, error)
 			}
 
 			if isFastCacheEnabled {
-				fastNode, _ := tree.ndb.GetFastNode(key)
+				fastNode, err := tree.ndb.GetFastNode(key)
+				if err != nil {
+					return nil, err
+				}
 				if fastNode == nil && version == tree.ndb.getCachedLatestVersion() {
 					return nil, nil
 				}
